@@ -88,7 +88,8 @@ def fault_list(world):
     cbv = world["ep"].endswith("Cb")
     m = gen.model_of(world) if world["read"]["ep"] != "readFile" and gen.name_of(world["read"]) else None
     out = [None]
-    for k, p in enumerate(cons):
+    for k in gen.enum_positions(len(cons), world.get("fault_seed", 1), cap=16):
+        p = cons[k]
         kinds = [x for x in KINDS if (x != "veto" or cbv)]
         if m and p == m["main"]:
             kinds = [x for x in kinds if x != "vanish"]
